@@ -101,8 +101,14 @@ def _e2e_job(job):
     cf = os.path.join(work, 'c20_%d.c' % idx)
     open(lf, 'w', encoding='latin1').write(text)
     res = {'idx': idx, 'lex': text, 'problems': [], 'marks': len(marks), 'linedirs': 0}
-    noline = rng.random() < 0.2
-    opts = (['-L'] if noline else []) + rng.choice([[], ['-Cf'], ['--reentrant'] if False else []])
+    noline = rng.random() < 0.3
+    noline_opt = noline and rng.random() < 0.5       # the %option spelling
+    if noline_opt:
+        text = '%option noline\n' + text
+        marks_shift = 1
+        open(lf, 'w', encoding='latin1').write(text)
+    opts = (['-L'] if noline and not noline_opt else []) + rng.choice([[], ['-Cf']])
+    res['known'] = []
     rc, so, se = flexrun.run_flex(flex, lf, cf, opts, timeout=10)
     if rc != 0:
         res['status'] = 'flexfail'
@@ -130,7 +136,10 @@ def _e2e_job(job):
         res['linedirs'] += 1
         n, fn = int(m.group(1)), m.group(2)
         if noline:
-            res['problems'].append('-L given but the scanner contains %s' % l)
+            if noline_opt and n == 1 and os.path.basename(fn) == os.path.basename(lf) and not res['known']:
+                res['known'].append('F20')
+                continue
+            res['problems'].append('%s given but the scanner contains %s' % ('%option noline' if noline_opt else '-L', l))
             continue
         if os.path.basename(fn) == os.path.basename(cf):
             if n != i + 2:
@@ -174,6 +183,13 @@ def run(ctx):
                 ctx.violation(p['what'], p)
     st = {}
     marks = dirs = 0
+    kf = {f['id']: f for f in common.load_known_findings().get('findings', [])}
+    if any('F20' in r.get('known', []) for r in eres):
+        what = '%option noline leaves the initial #line 1 "<input file>" directive in the scanner (-L does not)'
+        if kf.get('F20', {}).get('status') == 'known':
+            print('KNOWN-FINDING: property=C20 ' + what)
+        else:
+            ctx.violation(what, {'finding': 'F20'})
     for r in eres:
         st[r.get('status', '?')] = st.get(r.get('status', '?'), 0) + 1
         marks += r['marks']; dirs += r['linedirs']
